@@ -11,7 +11,14 @@ import (
 // ---- message pipe: a pair of socket.Messages ends with per-direction FIFO queues.
 
 var errInjectedWrite = errors.New("injected write failure")
-var errBrokenPipe = errors.New("write: broken pipe")
+
+// errBrokenPipe has a concrete type of its own (as *net.OpError has): code that stores "the last error"
+// in a typed container sees another type than io.EOF's.
+type pipeError struct{ s string }
+
+func (e *pipeError) Error() string { return e.s }
+
+var errBrokenPipe error = &pipeError{"write: broken pipe"}
 
 // errReadIO is what a read on a reset link returns: like the error of an expired read deadline or
 // of TCP keep-alive giving up, it is a net.Error that calls itself a timeout and "temporary".
@@ -31,18 +38,19 @@ type Frame struct {
 }
 
 type pipeState struct {
-	q        [2][][]byte // q[0]: written by A, read by B
-	closed   [2]bool     // end A / end B closed locally
-	dead     bool        // link cut: reads drain then EOF, writes fail
-	reset    bool        // undelivered data dropped, reads fail with an I/O error
-	wire     []Frame
-	nw       [2]int // frames written per direction
-	cutAfter [2]int // cut the link after the k-th frame of this direction was delivered (0 = never)
-	cutDrop  [2]int // cut the link instead of delivering the k-th frame
-	capacity int    // 0 = unbounded
-	obj      [2]vs.Obj
-	id       int
-	opens    int
+	q         [2][][]byte // q[0]: written by A, read by B
+	closed    [2]bool     // end A / end B closed locally
+	dead      bool        // link cut: reads drain then EOF, writes fail
+	blackhole [2]bool     // what this side writes from now on is silently lost
+	reset     bool        // undelivered data dropped, reads fail with an I/O error
+	wire      []Frame
+	nw        [2]int // frames written per direction
+	cutAfter  [2]int // cut the link after the k-th frame of this direction was delivered (0 = never)
+	cutDrop   [2]int // cut the link instead of delivering the k-th frame
+	capacity  int    // 0 = unbounded
+	obj       [2]vs.Obj
+	id        int
+	opens     int
 }
 
 // PipeEnd implements socket.Messages.
@@ -157,6 +165,10 @@ func (e *PipeEnd) WriteMessage(b []byte) error {
 			p.dead = true
 			return errInjectedWrite
 		}
+	}
+	if p.blackhole[e.side] {
+		// a peer that has gone silent (a half-open connection): what this side writes is lost, nobody is told
+		return nil
 	}
 	p.nw[e.side]++
 	if p.cutDrop[e.side] > 0 && p.nw[e.side] == p.cutDrop[e.side] {
